@@ -73,8 +73,8 @@ func runSQLite(r *vt.Run, t vt.TB, s sqSpec) {
 	}
 	cat := e1.ReadCatalog(r, t, env.O, "q", name)
 	rid := cat.RowidName()
-	if rid == "" || e1.IntegerArgsPK(s.DB.Tables[0].Def) {
-		r.Exclude("rowid-not-addressable-or-known-shape")
+	if rid == "" {
+		r.Exclude("rowid-not-addressable")
 		return
 	}
 	var cols, sel []string
